@@ -75,6 +75,12 @@ fn main() {
         let _ = std::fs::create_dir_all("/verif/.build");
         match engine::crash::run_child(&args) {
             Ok(code) => std::process::exit(code),
+            Err(c) if c.signal == 9 || c.signal == 15 => {
+                // SIGKILL / SIGTERM come from outside (OOM killer, a timeout, an operator), never from the crate: a
+                // machinery failure, not a verdict
+                eprintln!("MACHINERY: the exploration process was terminated by signal {} from outside (out of memory or a time limit?); no verdict", c.signal);
+                std::process::exit(2);
+            }
             Err(c) => {
                 let report = Report::new(entry.0, tier, seed);
                 report.eval(1);
